@@ -35,6 +35,8 @@ fn mk_bin(p: u64, op: u8, a: H, b: H) -> H {
     if op == 1 && a == b {
         return H::C(0);
     }
+    // commutative operands are kept in handle order (as SymF does)
+    let (a, b) = if op != 1 && b < a { (b, a) } else { (a, b) };
     with_arena(|ar| {
         let sh = match op {
             0 => addmod(ar.shadow(a), ar.shadow(b), p),
